@@ -67,13 +67,13 @@ theorem many_truncS (ZI : ZerosMirror c .integer) (ZF : ZerosMirror c .fraction)
     manyDigitsPhase c o neg { ip with start := trunc n ip.start, byte := trunc n ip.byte }
       { fp with byte := trunc n fp.byte } { ep with byte := trunc n ep.byte }
       (ip.nDigits + fp.nAfterDot) step e0 endIdx = .ok r := by
-  obtain ⟨i1, _, ⟨m, b1, ds, h8, hdg⟩, i4, i5, i6, i7, _, i9, _⟩ := integerPhase_truncS H b ip hv hi
+  obtain ⟨⟨s1, s2, s3, s4, s5⟩, ⟨m, b1, ds, h8, hdg⟩, i4, i5, i6, i7, _, i9, _⟩ := integerPhase_truncS H b ip hv hi
   obtain ⟨f1, f2, f3, f4, f5, f6, _⟩ := fractionPhase_truncS H ip.byte ip.mantissa fp i6 hfr
-  obtain ⟨z, zb, hz, hor, hzt⟩ := ZI b b1 ip.byte 0 m ds hv h8 hdg
+  obtain ⟨z, zb, hz, hor, hzt⟩ := ZI ip.start b1 ip.byte 0 m ds s3 h8 hdg
   rw [manyDigitsPhase_eq] at h ⊢
-  simp only [i1, hz, bind, Except.bind] at h
+  simp only [hz, bind, Except.bind] at h
   simp only [manyMid_congr]
-  simp only [i1, hzt n hn1, bind, Except.bind]
+  simp only [hzt n hn1, bind, Except.bind]
   have hin := hn1.1
   rcases hor with ⟨hzb, hzd⟩ | ⟨q1, q2, q3, x, q4, q5, q6⟩
   · -- the integer digits were all zeros: the re-parse stands where the first pass stood
@@ -123,9 +123,9 @@ theorem many_truncS (ZI : ZerosMirror c .integer) (ZF : ZerosMirror c .fraction)
     have hxdp : x ≠ o.dp := by
       intro e; subst e; exact q6 H.dpDig
     have hget : zb.slc[zb.index]? = some x := by rw [q2]; exact q4
+    have hlt : zb.index < n := by omega
     have hdp : ¬ zb.firstIsCased o.dp = true := by
       simp only [Bytes.firstIsCased, Bytes.first, hget, beq_iff_eq, Option.some.injEq]; exact hxdp
-    have hlt : zb.index < n := by omega
     have hget2 : (trunc n zb).slc[(trunc n zb).index]? = some x := by rw [get_trunc, if_pos hlt, hget]
     have hdp2 : ¬ (trunc n zb).firstIsCased o.dp = true := by
       simp only [Bytes.firstIsCased, Bytes.first, hget2, beq_iff_eq, Option.some.injEq]; exact hxdp
@@ -246,7 +246,7 @@ theorem parseNumber_truncS (ZI : ZerosMirror c .integer) (ZF : ZerosMirror c .fr
   cases hi : integerPhase c b with
   | error e => simp [hi] at h
   | ok ip =>
-    obtain ⟨i1, i2, i3, i4, i5, i6, i7, i8, i9, i10⟩ := integerPhase_truncS H b ip hv hi
+    obtain ⟨⟨s1, s2, s3, s4, s5⟩, i3, i4, i5, i6, i7, i8, i9, i10⟩ := integerPhase_truncS H b ip hv hi
     simp only [hi] at h
     cases hfr : fractionPhase c o ip.byte ip.mantissa with
     | error e => simp [hfr] at h
